@@ -30,6 +30,18 @@ CLAIMED = {
         technique="SMT translation validation (z3 QF_BVFP+UF) of natively built expression graphs",
         engine="E-TV",
     ),
+    "C13": dict(
+        category="translation_validation",
+        text="Builder scripts (six targets x eleven remaps: translate, scale, two rotations, shear, a dense matrix, axis permutation, linear and "
+             "non-linear axis expressions, shared and remapped argument trees) nested to depth 3 (thorough: 4), one shared subtree under two frames, "
+             "and remapped trees as remap_xyz arguments are run through the real Tree builder API and Context::import; z3 decides that the imported "
+             "graph equals the script read as substitution (later remaps applied to the coordinates first) for all points, over the reals.",
+        design="DESIGN.md §2 C13",
+        note="Trusted: z3; real arithmetic as the meaning of + - * / neg abs square min max, other opcodes uninterpreted. Outside: f32 rounding "
+             "(matrices/constants are dyadic so the native folds are exact), nestings deeper than the bound, hand-made TreeOp::RemapAffine chains.",
+        technique="SMT translation validation (z3, QF_UFNRA) of natively imported remap trees",
+        engine="E-TV",
+    ),
     "C18": dict(
         category="model_checking",
         text="Kani harnesses over the real View2/View3 code from an arbitrary state (all 2^32 bit patterns per field): rotating leaves centre "
@@ -151,9 +163,8 @@ NOT_APPLICABLE = {
     "C17": "Scripts: the unit is the Rhai interpreter (string parser + dynamic dispatch), far beyond bounded symbolic execution here.",
     "C19": "Constraint solver: HashMap<Var,_> API, dynamic nalgebra matrices and an SVD-based LM loop; hash-map and nalgebra code alone cost minutes per call under CBMC and the claims are numeric.",
     # not yet built (kept current as checks are added)
-    "C13": "not built: the planned exact-arithmetic translation validation of Context::import over remap frames was not reached in the time available; no solver-based check decides it",
     "C14": "not built: ShapeTracingEval/ShapeBulkEval go through nalgebra transforms and HashMap-keyed variable binding, which CBMC does not get through within minutes per call (same cost wall as the C18 matrix harnesses)",
-    "C16": "not built: shape builders are nalgebra/Tree-remap code whose meaning depends on C13 (remap = substitution), which is not decided here",
+    "C16": "not built: every shape builder would need its own closed-form distance specification over the reals next to the C13 remap validation; not reached in the time available",
 }
 
 HOOK_COMMITS = ["6f64d81", "a9b3eaa"]
@@ -188,7 +199,7 @@ def main():
         "engines": [
             {"name": "E-X", "path": "/verif/lib/x86smt.py", "serves_properties": ["C02", "C03", "C20"],
              "kind_free_text": "tvdump assembles tapes with the real fidget-jit assemblers; lib/lifter.py + lib/x86smt.py + lib/jitsmt.py execute the machine code symbolically into SMT for z3"},
-            {"name": "E-TV", "path": "/verif/tv", "serves_properties": ["C01", "C04", "C10", "C12", "C15"],
+            {"name": "E-TV", "path": "/verif/tv", "serves_properties": ["C01", "C04", "C10", "C12", "C13", "C15"],
              "kind_free_text": "tvdump (Rust, path dependency on /repo) runs the real compiler passes natively on enumerated programs; lib/tv_engine.py encodes each input/output pair for z3"},
             {"name": "E-K", "path": "/verif/kani", "serves_properties": ["C01", "C03", "C04", "C05", "C11", "C18", "C20"],
              "kind_free_text": "Kani 0.68 / CBMC 6.11 proof harnesses over the real fidget crates (path dependency on /repo), driven by /verif/check"},
